@@ -63,6 +63,7 @@ def posOrder (L : Nat) : List Node :=
   [.start] ++ (List.range L).map .instr ++ [.stop]
 
 def durTag : DurDesc → String
+  | .waveform (some _) (some _) _ _ _ => "dur-defwaveform-with-duration-arg"
   | .waveform (some _) _ _ _ _ => "dur-defwaveform"
   | .waveform none _ _ _ _ => "dur-template"
   | .literal _ => "dur-literal"
